@@ -298,7 +298,8 @@ def model_dict(model: dict, imgdt: str, extra: dict | None = None) -> dict:
         p.update(extra)
     arguments = dict(model_user_args(model["args"]))
     arguments["_p"] = p
-    return {"func": PROBE, "name": model["name"], "enabled": bool(model["enabled"]),
+    func = {"partial": PROBE + "_partial", "object": PROBE + "_object"}.get((extra or {}).get("callable"), PROBE)
+    return {"func": func, "name": model["name"], "enabled": bool(model["enabled"]),
             "arguments": arguments}
 
 
